@@ -3,9 +3,9 @@ from sf_common import *
 import bp
 
 EXPLANATION = ('C17: real Sign/StepFunction/Relative_Difference/Floats_Equal: consistency, symmetry and reflexivity with every divisor non-zero (EA) and, bit-precisely over all doubles, Sign/StepFunction consistency (CBMC); '
-               'Round: odd, Round(0)=0, more than 7 digits rejected, and - with E = floor(log10|x|), T = 10^E as an abstract decade (axioms T > 0, 10^-E = 1/T, T <= |x| < 10 T) - within half a unit of the last digit, digit structure T*c*floor(10^(d-1) x/T + 1/2), monotone within a decade, for d = 1..7; Dawson_Integral: odd on both branches, and the polynomial branch (wherever the code takes it in 0 < x < 1) within 2e-7 of the alternating-series enclosure of the Dawson integral; VSH coefficient tables with symbolic integer (l,m): selection structure (non-zero only for l_hat = l+-1 and the stated m_hat) and the sum rules sum |coef|^2 = 1 (Y) and = l(l+1) (Psi); component outside {0,1,2} rejected; summation of the tables in Vector_Spherical_Harmonics_Y/Psi with the scalar harmonics as symbols.')
+               'Round: odd, Round(0)=0, more than 7 digits rejected, and - with E = floor(log10|x|), T = 10^E as an abstract decade (axioms T > 0, 10^-E = 1/T, T <= |x| < 10 T) - within half a unit of the last digit, digit structure T*c*floor(10^(d-1) x/T + 1/2), monotone within a decade, for d = 1..7; Dawson_Integral: odd on both branches, and the polynomial branch (wherever the code takes it in 0 < x < 1) within 2e-7 of the alternating-series enclosure of the Dawson integral, and Erfi on that branch = exp(x^2) times a polynomial within 1e-6 (relative) of 2/sqrt(pi) times the enclosure; VSH coefficient tables with symbolic integer (l,m): selection structure (non-zero only for l_hat = l+-1 and the stated m_hat) and the sum rules sum |coef|^2 = 1 (Y) and = l(l+1) (Psi); component outside {0,1,2} rejected; summation of the tables in Vector_Spherical_Harmonics_Y/Psi with the scalar harmonics as symbols.')
 BOUNDS = {'quick': {'vsh_lmax': 4}, 'thorough': {'vsh_lmax': 12}}
-NOT_DECIDED = ['accuracy of the exp-sum branch of Dawson_Integral, of Erfi and of Inv_Erf (transcendental references; decided: the polynomial branch of Dawson_Integral against the alternating-series enclosure)', "Round: idempotence, monotonicity ACROSS decades, and the effect of rounding in log10/pow near powers of ten (decided: half-unit accuracy, digit structure and monotonicity within a decade, with E = floor(log10|x|), 10^E as an abstract decade)", 'conjugation, tangentiality and gradient identities of the vector harmonics as identities of functions (need the scalar harmonics from boost; decided here: coefficient tables, selection and sum rules, and that the summation loops add exactly the table entries with |m_hat| <= l_hat for l <= vsh_lmax) and the sign conventions of the tables']
+NOT_DECIDED = ['accuracy of the exp-sum branch of Dawson_Integral and Erfi, and of Inv_Erf (transcendental references; decided: the polynomial branch of Dawson_Integral, and Erfi on it, against the alternating-series enclosure, exp(x*x) exact)', "Round: idempotence, monotonicity ACROSS decades, and the effect of rounding in log10/pow near powers of ten (decided: half-unit accuracy, digit structure and monotonicity within a decade, with E = floor(log10|x|), 10^E as an abstract decade)", 'conjugation, tangentiality and gradient identities of the vector harmonics as identities of functions (need the scalar harmonics from boost; decided here: coefficient tables, selection and sum rules, and that the summation loops add exactly the table entries with |m_hat| <= l_hat for l <= vsh_lmax) and the sign conventions of the tables']
 ASSUMPTIONS = ['EA: doubles exact reals, exp/log10/pow uninterpreted', 'VSH: l, m symbolic integers with l >= 1, |m| <= l; square roots via witnesses']
 
 X, Y, T = z3.Real('x'), z3.Real('y'), z3.Real('tol')
@@ -134,6 +134,20 @@ def job_dawson():
         n += 1; r = toR(p.ret)
         res.append(prove('dawson/series-accuracy[%d]' % pi, p.st.pc, z3.And(r - (S4 + t9) >= -tol, r - (S4 + t9 - t11) <= tol), 60000, {'x': X, 'op': 30}, key='C17/dawson/series-accuracy', tactic='nra'))
     if n == 0: res.append(ob('dawson/series-accuracy/paths', 'undecided', detail='no polynomial path in 0 < x < 1: %s' % [str(p.end) for p in P][:3]))
+    # Erfi(x) = 2/sqrt(pi) exp(x^2) F(x): on every returning path whose only transcendental call is exp(x*x) the return must be E*g(x), linear in E = exp(x*x)
+    # (E an uninterpreted positive term), and g within 1e-6 (relative) of c*F for every c in a 1e-25 enclosure of 2/sqrt(pi) and F in the alternating-series enclosure
+    _, P = sf(31, X, pre=[X > 0, X < 1], limits=lim, resolve_selects=True); n = 0
+    clo = z3.RealVal('11283791670955125738961589/10000000000000000000000000'); chi = z3.RealVal('11283791670955125738961590/10000000000000000000000000'); rel = z3.RealVal('1/1000000')
+    Flo, Fhi = S4 + t9 - t11, S4 + t9
+    for pi, p in enumerate(P):
+        evs = [e for e in p.st.events if e[0] == 'math']
+        if p.end is not None or len(evs) != 1 or evs[0][1] != 'exp': continue
+        so = z3.Solver(); so.set('timeout', 3000); so.add(*p.st.pc)
+        if so.check() == z3.unsat: continue
+        n += 1; r = toR(p.ret); E = uf('exp')(evs[0][2]); g = z3.substitute(r, (E, z3.RealVal(1)))
+        res.append(prove('erfi/series/linear-in-exp[%d]' % pi, p.st.pc, r == E * g, 20000, {'x': X, 'op': 31}, key='C17/erfi/series-accuracy'))
+        res.append(prove('erfi/series-accuracy[%d]' % pi, p.st.pc + [evs[0][2] == X * X], z3.And(Flo > 0, g - chi * Fhi >= -rel * clo * Flo, g - clo * Flo <= rel * clo * Flo), 60000, {'x': X, 'op': 31}, key='C17/erfi/series-accuracy', tactic='nra'))
+    if n == 0: res.append(ob('erfi/series-accuracy/paths', 'undecided', detail='no path with exp(x*x) as only transcendental call in 0 < x < 1: %s' % [str(p.end) for p in P][:3]))
     return res
 
 L, M = z3.Int('l'), z3.Int('m')
@@ -315,6 +329,12 @@ def replay(ctx, o):
             if abs(xx) < 1 and abs(r['ret'] - float(dawsn(xx))) > worst[0]: worst = (abs(r['ret'] - float(dawsn(xx))), xx)
         r = nsf(ctx, 30, x); e0 = abs(r['ret'] - float(dawsn(x)))
         return e0 > 2e-7, 'native Dawson_Integral(%r) = %r, reference %r (error %.3g; worst on [x,1): %.3g at %r)' % (x, r['ret'], float(dawsn(x)), e0, worst[0], worst[1])
+    if key == 'C17/erfi/series-accuracy':
+        from scipy.special import erfi
+        r = nsf(ctx, 31, x)
+        if r['status'] != 'ok': return True, 'native Erfi(%r): %s' % (x, r['status'])
+        ref = float(erfi(x)); e0 = abs(r['ret'] - ref) / abs(ref) if ref != 0 else abs(r['ret'])
+        return e0 > 1e-6, 'native Erfi(%r) = %r, reference %r (relative error %.3g)' % (x, r['ret'], ref, e0)
     if key == 'C17/dawson/odd':
         r1 = nsf(ctx, 30, x); r2 = nsf(ctx, 30, -x); return r1.get('ret') != -r2.get('ret', 0), 'native Dawson(%r)=%s Dawson(%r)=%s' % (x, r1.get('ret'), -x, r2.get('ret'))
     r = nsf(ctx, op, x, y, tol); r2 = nsf(ctx, op, y, x, tol)
